@@ -771,7 +771,7 @@ func C04(e *Env) {
 
 	disk := c04Disk(e, root, rng)
 	var streams []hcase
-	for i := 0; i < e.Pick(4000, 60000); i++ {
+	for i := 0; i < e.Pick(4000, 300000); i++ {
 		n := 1 + rng.Intn(200)
 		if rng.Intn(3) == 0 {
 			// start with a valid opcode so that the tail is parsed
@@ -783,7 +783,7 @@ func C04(e *Env) {
 		}
 	}
 	var mutated []hcase
-	for i := 0; i < e.Pick(2000, 40000); i++ {
+	for i := 0; i < e.Pick(2000, 200000); i++ {
 		var s []byte
 		for _, q := range c04ValidSession(rng) {
 			s = append(s, q.Bytes()...)
@@ -821,7 +821,7 @@ func C04(e *Env) {
 		bursts = append(bursts, hcase{Family: "burst", Name: fmt.Sprintf("%d simultaneous connections #%d", len(ss), i), Streams: ss})
 	}
 	hostile := c04Hostile()
-	geometry := c04Geometry(rng, e.Pick(600, 12000))
+	geometry := c04Geometry(rng, e.Pick(600, 60000))
 
 	wal, err := os.Create(filepath.Join(e.Scratch, "c04.wal"))
 	must(err)
